@@ -140,7 +140,7 @@ fn nontrivial(o: &Outcome) -> bool {
 
 const CLASSES: &[&str] = &["tracing-checked-after-refresh-or-roundtrip", "stale-refresh-unknown-id", "stale-refresh-known-id", "forged-refresh", "roundtrip", "rekeyed"];
 
-fn hc(thorough: bool) -> HistCheck<'static> {
+pub fn hc(thorough: bool) -> HistCheck<'static> {
     HistCheck {
         focus: "C17",
         profile: profile(thorough),
